@@ -20,6 +20,12 @@ class FakeOSPath:
         self._events.append(('lexists', p))
         return self._exists
 
+    def getsize(self, p):
+        self._events.append(('getsize', p))
+        if not bool(self._exists):
+            raise FileNotFoundError(p)
+        return 0 if getattr(self, '_empty', False) else 5700
+
     def exists(self, p):
         self._events.append(('exists', p))
         return self._exists & ~self._dangling if isinstance(self._exists, symx.SymBool) or isinstance(self._dangling, symx.SymBool) \
@@ -33,9 +39,23 @@ class FakeOSPath:
 
 
 class FakeOS:
-    def __init__(self, exists, events, dangling=False):
+    def __init__(self, exists, events, dangling=False, empty=False):
         self.path = FakeOSPath(exists, events, dangling)
+        self.path._empty = empty
         self._events = events
+        self._exists, self._empty = exists, empty
+
+    def _st(self, p):
+        import types
+        if not bool(self._exists):
+            raise FileNotFoundError(p)
+        return types.SimpleNamespace(st_size=0 if self._empty else 5700, st_mode=0o100644)
+
+    def lstat(self, p, *a, **k):
+        self._events.append(('lstat', p))
+        return self._st(p)
+
+    stat = lstat
 
     def remove(self, p):
         self._events.append(('remove', p))
@@ -161,6 +181,7 @@ def h_write(fmt, fail_kind, n, pos, api, bad_option, m):
     exists = m.boolean('exists')
     dangling = m.boolean('dangling')
     overwrite = m.boolean('overwrite')
+    empty = bool(m.boolean('empty')) if (fail_kind is None and not bad_option and fmt != 'fits') else False      # the existing file has zero length
     regs = _pool(fail_kind, n, pos)
     kw = {'crtf': {'coordsys': 'image', 'radunit': 'pix'}}.get(fmt, {})      # pixel regions are only expressible in CRTF image coordinates
     if bad_option:
@@ -193,6 +214,8 @@ def h_write(fmt, fail_kind, n, pos, api, bad_option, m):
                 os.symlink(os.path.join(d, 'missing-target'), target)
                 sentinel = ('link', os.readlink(target))
             elif exists:
+                if empty:
+                    sentinel = b''
                 with open(target, 'wb') as f:
                     f.write(sentinel)
             raised = call(target)
@@ -209,7 +232,7 @@ def h_write(fmt, fail_kind, n, pos, api, bad_option, m):
                 m.require('a write that cannot serialise raises', raised is not None)
                 m.require('a failed write leaves the destination as it was', now == (sentinel if exists else None))
             else:
-                m.require('a valid write succeeds', raised is None and now is not None and now != sentinel)
+                m.require('a valid write succeeds', raised is None and now is not None and (now != sentinel or empty))
                 if fmt != 'fits':
                     m.require('the written text is the serialised text', now.decode() == expected_text)
         finally:
@@ -219,7 +242,7 @@ def h_write(fmt, fail_kind, n, pos, api, bad_option, m):
     events = []
     mod = importlib.import_module(f'regions.io.{fmt}.write')
     if fmt in ('ds9', 'crtf'):
-        m.shim(mod, 'os', FakeOS(exists, events, dangling))
+        m.shim(mod, 'os', FakeOS(exists, events, dangling, empty))
         m.shim(mod, 'open', lambda name, mode='r', *a, **k: FakeFile(events, name, mode))
     else:
         class _F:
